@@ -194,6 +194,17 @@ where
     fn update_A(&mut self, A: &CscMatrix<T>) {
         _update_values(&mut self.ldlsolver, &mut self.KKT, &self.map.A, &A.nzval);
     }
+
+    #[cfg(clarabel_verif)]
+    fn verif_kkt_view(&self) -> (Vec<T>, Vec<T>, Option<Vec<T>>, Option<Vec<T>>) {
+        let pick = |index: &[usize]| index.iter().map(|&i| self.KKT.nzval[i]).collect::<Vec<T>>();
+        (
+            pick(&self.map.P),
+            pick(&self.map.A),
+            self.ldlsolver.verif_values(&self.map.P),
+            self.ldlsolver.verif_values(&self.map.A),
+        )
+    }
 }
 
 impl<T> DirectLDLKKTSolver<T>
